@@ -19,6 +19,17 @@ COMMENT = 'samlang_ast::source::Comment'
 CREF = 'samlang_ast::source::CommentReference'
 M, E, N = 0, 1, 2
 NAMES = {M: 'moved', E: 'empty', N: 'maybe-non-empty'}
+# the parser's own buffer of comments that were lexed but not yet attached (a Vec<Comment> field reached through the `&mut`
+# parser parameter); tracked as one pseudo slot
+PENDING = (-1, ('pending',))
+
+
+def is_pending_place(pl):
+    """`(*parser).<field>` where the field is the parser's Vec<Comment> buffer"""
+    if len(pl.proj) == 2 and pl.proj[0][0] == 'd' and pl.proj[1][0] == 'f':
+        e = pl.proj[1]
+        return e[1].endswith('SourceParser') and e[4] == 'pending_comments'
+    return False
 
 
 def is_comvec(t):
@@ -61,8 +72,9 @@ class Analysis:
             if t.k == 'adt' and t.id in node_adts and l > b.nargs:
                 self.slots.append((l, 'node'))
                 self.node_locals.add(l)
+        self.slots.append(PENDING)
         self.slotset = set(self.slots)
-        self.origin = {}
+        self.origin = {PENDING: {"the parser's pending comments"}}
 
     def ref_target(self, op):
         """For an operand that is a reference to a tracked slot, the slot."""
@@ -82,6 +94,8 @@ class Analysis:
                 if tgt.proj and tgt.proj[0][0] == 'd' and len(tgt.proj) == 1:
                     cur = tgt.local      # reborrow &mut *r
                     continue
+                if is_pending_place(tgt):
+                    return PENDING
                 return slot_of_place(self.b, tgt)
             if rv[0] == 'use' and rv[1][0] in ('c', 'm') and not rv[1][1].proj:
                 cur = rv[1][1].local
@@ -90,8 +104,10 @@ class Analysis:
         return None
 
     def initial(self):
-        st = {}
+        st = {PENDING: N}
         for (l, s) in self.slots:
+            if (l, s) == PENDING:
+                continue
             st[(l, s)] = N if 1 <= l <= self.b.nargs else M
             if 1 <= l <= self.b.nargs:
                 self.origin[(l, s)] = {f'parameter {self.b.var_name(l) or l}'}
@@ -135,7 +151,7 @@ class Analysis:
             if st_[0] != 'a':
                 continue
             dst, rv = st_[1], st_[2]
-            dsl = slot_of_place(b, dst)
+            dsl = PENDING if is_pending_place(dst) else slot_of_place(b, dst)
             if rv[0] not in ('use', 'agg'):
                 for o in iter_operands_rvalue(rv):
                     if o[0] in ('c', 'm') and o[1].local in self.node_locals:
@@ -211,6 +227,13 @@ class Analysis:
                         lt = b.locals[args[i][1].local]
                         if lt.k == 'ref' and lt.extra == 1 and not name.endswith(('::len', '::is_empty', '::iter', '::deref')):
                             st[r] = N
+            # any other call that is handed the parser may lex further and refill its pending buffer
+            if not name.endswith(('Vec::<T, A>::append', 'mem::take', 'Vec::<T, A>::is_empty', 'Vec::<T, A>::len')):
+                for o in args:
+                    if o[0] in ('c', 'm') and not o[1].proj:
+                        lt = b.locals[o[1].local]
+                        if lt.k == 'ref' and lt.extra == 1 and lt.args and lt.args[0].k == 'adt' and lt.args[0].name.endswith('SourceParser'):
+                            st[PENDING] = N
             # result
             dst = t[4]
             if not dst.proj and dst.local in self.node_locals:
@@ -240,6 +263,10 @@ class Analysis:
                         events.append(('L1', k, t[5], 'scope-end drop'))
                     if k in st:
                         st[k] = M
+            elif is_pending_place(pl):
+                if st.get(PENDING) == N:
+                    events.append(('L4', PENDING, t[5], 'overwritten'))
+                st[PENDING] = M
             else:
                 sl = slot_of_place(b, pl)
                 if sl is not None and st.get(sl) == N:
@@ -342,7 +369,7 @@ def run(prog, tier, repo):
             seen = {}
             for bi, kind, slot, line, how in an.run():
                 n_drops += 1
-                var = b.var_name(slot[0])
+                var = b.var_name(slot[0]) if slot[0] >= 0 else 'pending_comments'
                 org = sorted(an.origin.get(slot if slot[1] is not None else (slot[0], (1,)), set()) or
                              an.origin.get((slot[0], ()), set()))
                 label = var or ('result of ' + '/'.join(org) if org else f'temporary')
@@ -351,6 +378,10 @@ def run(prog, tier, repo):
                 key = base if seen[base] == 1 else f'{base}#{seen[base]}'
                 if on_error_path(bi):
                     res.ok(key, b.loc(line), 'dropped on a path that reports a syntax error')
+                elif kind == 'L4':
+                    res.violation(key, b.loc(line), f'{b.name}: the parser\'s pending comment buffer is overwritten while it may '
+                                  f'still hold comments (they were lexed by a look-ahead and not yet attached to any token), on a '
+                                  f'path without an error report: those comments are lost by formatting')
                 elif kind == 'L3':
                     res.violation(key, b.loc(line), f'{b.name}: the {b.locals[slot[0]].name.split("::")[-1]} node `{label}` returned by '
                                   f'a production is dropped whole on a path that neither moves it into the result nor reads its '
